@@ -265,13 +265,15 @@ PROMO_SOUND = SND + """proof {
                 assert forall|a: int, b: int| #![trigger at(s.board, a, b)] #![trigger at(new_board.board, a, b)] seen(at(s.board, a, b), s.to_move) == seen(at(new_board.board, a, b), s.to_move) by {}
                 lemma_attacked_same_view(s.board, new_board.board, s.to_move, king_sq(s, board.to_move).0 as int, king_sq(s, board.to_move).1 as int);
             }
-            assert forall|i: int| lo <= i < new_moves@.len() implies legal_position(#[trigger] &new_moves@[i]) by {
+            assert forall|i: int| lo <= i < new_moves@.len() implies legal_position(#[trigger] &new_moves@[i]) && is_successor(board, &new_moves@[i]) by {
                 let s = &new_moves@[i];
                 assert(gen_sound(board, s, square_cords));
                 assert(king_sq(s, color) == king_after(board, fr, fc, tr, tc));
                 assert(safe_after(board, fr, fc, tr, tc, s.pawn_promotion));
                 assert(legal_step(board, fr, fc, mov, s.pawn_promotion, move_generation_mode));
                 lemma_step_closure(board, s, fr, fc, mov, s.pawn_promotion, move_generation_mode);
+                assert(pos_after(board, s, fr, fc, mov.0 as int, mov.1 as int, s.pawn_promotion) && succ_mode(move_generation_mode));
+                assert(is_successor(board, s));
             }
         }""" % {'FR': FR}
 PROMO_CMP = CMP + """proof {
@@ -293,7 +295,7 @@ GMFP_INV = [
     'new_moves@.len() >= old(new_moves)@.len()',
     'forall|i: int| 0 <= i < old(new_moves)@.len() ==> new_moves@[i] == old(new_moves)@[i]',
     SND + 'forall|i: int| old(new_moves)@.len() <= i < new_moves@.len() ==> gen_sound(board, #[trigger] &new_moves@[i], square_cords)',
-    SND + 'forall|i: int| old(new_moves)@.len() <= i < new_moves@.len() ==> legal_position(#[trigger] &new_moves@[i])',
+    SND + 'forall|i: int| old(new_moves)@.len() <= i < new_moves@.len() ==> legal_position(#[trigger] &new_moves@[i]) && is_successor(board, &new_moves@[i])',
     KEY + 'key_ok(board, zobrist_hasher)',
     KEY + 'forall|i: int| old(new_moves)@.len() <= i < new_moves@.len() ==> key_ok(#[trigger] &new_moves@[i], zobrist_hasher)',
     CMP + 'targets_distinct(moves@)',
@@ -311,7 +313,7 @@ GMFP = {
         # C02: each successor is the position after the move its descriptor names; the mover's king is safe in it
         SND + 'forall|i: int| old(new_moves)@.len() <= i < final(new_moves)@.len() ==> gen_sound(board, #[trigger] &final(new_moves)@[i], square_cords)',
         # C02/C13 chains: every successor is again a legal position (the precondition of generation is re-established)
-        SND + 'forall|i: int| old(new_moves)@.len() <= i < final(new_moves)@.len() ==> legal_position(#[trigger] &final(new_moves)@[i])',
+        SND + 'forall|i: int| old(new_moves)@.len() <= i < final(new_moves)@.len() ==> legal_position(#[trigger] &final(new_moves)@[i]) && is_successor(board, &final(new_moves)@[i])',
         # C05: the incremental key of each successor is its from-scratch key
         KEY + 'forall|i: int| old(new_moves)@.len() <= i < final(new_moves)@.len() ==> key_ok(#[trigger] &final(new_moves)@[i], zobrist_hasher)',
         # C01/C13: the appended successors are exactly the legal (capturing) non-castling moves of this piece --
@@ -344,6 +346,8 @@ GMFP = {
             assert(safe_after(board, fr, fc, tr, tc, None));
             assert(legal_ep(board, fr, fc, mov, None));
             lemma_step_closure(board, s, fr, fc, mov, None, move_generation_mode);
+            assert(pos_after(board, s, fr, fc, mov.0 as int, mov.1 as int, None) && succ_mode(move_generation_mode));
+            assert(is_successor(board, s));
         }""" % {'FR': FR}),
         ('new_moves.push(new_board);', 0, CMP + """proof {
                     lemma_step_push1(board, square_cords, moves@, __i - 1, pre, new_moves@, %(LO)s, new_moves@[new_moves@.len() - 1]);
@@ -430,6 +434,8 @@ GMFP = {
             assert(safe_after(board, fr, fc, tr, tc, s.pawn_promotion));
             assert(legal_step(board, fr, fc, mov, s.pawn_promotion, move_generation_mode));
             lemma_step_closure(board, s, fr, fc, mov, s.pawn_promotion, move_generation_mode);
+            assert(pos_after(board, s, fr, fc, mov.0 as int, mov.1 as int, s.pawn_promotion) && succ_mode(move_generation_mode));
+            assert(is_successor(board, s));
         }""" % {'FR': FR}),
         ('// take care of en passant captures', 0, 'let ghost after_loop = new_moves@; let ghost mut ep_try: Option<Point> = None; let ghost mut ep_safe: bool = false;'),
         ('if let Some(mov) = en_passant {', 0, CMP + """proof {
